@@ -183,8 +183,7 @@ func (matrix *SparseReal32Matrix) SLICE(rfrom, rto, cfrom, cto int) *SparseReal3
   return &m
 }
 func (matrix *SparseReal32Matrix) AsSparseReal32Vector() *SparseReal32Vector {
-  if matrix.cols < matrix.colMax - matrix.colOffset ||
-    (matrix.rows < matrix.rowMax - matrix.rowOffset) {
+  if matrix.rows != matrix.rowMax || matrix.cols != matrix.colMax {
     n, m := matrix.Dims()
     v := nilSparseReal32Vector(n*m)
     for it := matrix.ConstIterator(); it.Ok(); it.Next() {
